@@ -94,9 +94,9 @@ func (c *conn) terminate(err error) error {
 	}
 	c.logger.Debug("Terminating connection")
 	c.cancel(err) // Cancel the server context
-	if tx := c.tx.Swap(chan txMsg(nil)); tx != nil && tx != chan txMsg(nil) {
-		close(tx.(chan txMsg))
-	}
+	// The tx channel is only swapped out, never closed: a concurrent send() may already have loaded it,
+	// and sending on a closed channel would panic. The write loop exits through the canceled context.
+	c.tx.Swap(chan txMsg(nil))
 	return c.stream.Close() // Close the connection
 }
 
